@@ -716,6 +716,43 @@ def replay_inject(p):
                     break
             if msgs:
                 break
+        # input files are only packaging: the same input blocks stored in ONE file give the same output blocks (with a
+        # time-varying synthetic stream, so that a pipeline that restarts at an input-file boundary shows)
+        if bpf < n_in and not msgs:
+            with open(os.path.join(d, 'one.0000.raw'), 'wb') as f:
+                for fi in range(-(-n_in // bpf)):
+                    f.write(open(os.path.join(d, f'in.{fi:04d}.raw'), 'rb').read())
+
+            def run_varying(stem, out):
+                s_ = an.Antenna(sample_rate=1024.0, num_pols=npol, seed=2) if nant == 1 else an.MultiAntennaArray(nant, sample_rate=1024.0, num_pols=npol, delays=[0] * nant, seed=2)
+                for st in (s_.streams if nant == 1 else [x for a_ in s_.antennas for x in a_.streams]):
+                    st.add_signal(lambda ts: 40.0 * np.sin(997.0 * np.asarray(ts)) + 300.0 * np.asarray(ts))
+                f_ = pf.PolyphaseFilterbank(num_taps=taps, num_branches=P)
+                f_.channelized_stds = np.array([0.7, 0.9])      # (pinned: the calibration draws are not seeded)
+                b_ = bk.RawVoltageBackend.from_data(os.path.join(d, stem), s_, digitizer=qz.RealQuantizer(target_fwhm=8, num_bits=8), filterbank=f_, start_chan=0, num_subblocks=nsb)
+                b_.record(os.path.join(d, out), num_blocks=n_req, length_mode='num_blocks', header_dict={}, digitize=digitize, verbose=False, load_template=False)
+                res = []
+                fi = 0
+                while os.path.exists(os.path.join(d, f'{out}.{fi:04d}.raw')):
+                    raw = open(os.path.join(d, f'{out}.{fi:04d}.raw'), 'rb').read()
+                    parsed, err = C04.parse_file(list(raw))
+                    pos = 0
+                    for h in parsed or []:
+                        end = raw.index(b'END' + b' ' * 77, pos) + 80
+                        if int(h.get('DIRECTIO', 0)) != 0 and (end - pos) % 512:
+                            end += 512 - (end - pos) % 512
+                        res.append(raw[end:end + block_size])
+                        pos = end + block_size
+                    fi += 1
+                return res
+            split_out, one_out = run_varying('in', 'vsplit'), run_varying('one', 'vone')
+            if len(split_out) != len(one_out):
+                msgs.append(f"{len(split_out)} output blocks from the input stored in files of {bpf} block(s), {len(one_out)} from the same blocks in one file")
+            else:
+                for bi, (x, y) in enumerate(zip(split_out, one_out)):
+                    if x != y:
+                        msgs.append(f"output block {bi} differs between the input stored in files of {bpf} block(s) and the same blocks stored in one file (the pipeline does not continue across input files)")
+                        break
         # stationary gain: the synthetic stream is constant, so (output - requantise(input alone)) pattern must be the same in
         # every sub-block: compare the channelized_stds the backend ends up with against the value it started from
         for a in range(nant):
